@@ -24,7 +24,7 @@ RULE = ('cases = primitive calls on all lattice configurations (segments x point
         'non-trivial = non-degenerate configuration with a non-zero expected value (proper segment and off-segment point, overlapping rectangles, non-collinear triple, vector with distinct values)')
 ASSUMPTIONS = ['relative tolerance 1e-12 plus 1e-12 x configuration scale absolute', 'coordinates are exactly representable (integer lattice, power-of-two embeddings)']
 BOUNDS = {'quick': {'lattice': '{-2..3}^2', 'embeddings (scale, shift)': 5, 'curves for sub-ranges': 'A n<=4, A1 n=5,6', 'value vectors': 'length<=5 over {0,1,2,3}'},
-          'thorough': {'lattice': '{-3..4}^2', 'embeddings': 5, 'curves for sub-ranges': 'A n<=5, A1 n=6,7', 'value vectors': 'length<=6 over {0,1,2,3}'}}
+          'thorough': {'lattice': '{-3..4}^2', 'embeddings': 5, 'curves for sub-ranges': 'A n<=5, A1 n=6,7,8, A12 n=6', 'value vectors': 'length<=6 over {0,1,2,3}'}}
 TECHNIQUE = 'exhaustive lattice enumeration of the real primitives against exact rational geometry'
 LEVEL_TEXT = ('Model checking by complete enumeration of small lattices (degenerate cases included) under exact re-embeddings at offsets up to 2^20 and scales '
               'down to 2^-30: every primitive call compared with its exact-arithmetic definition, plus symmetry / range / degenerate clauses.')
@@ -43,7 +43,7 @@ def units(tier, seed):
             u.append(('seg', lat, emb, k, K))
             u.append(('tri', lat, emb, k, K))
             u.append(('rect', lat, emb, k, K))
-    plan = [('A', 3, 1), ('A', 4, 8), ('A1', 5, 2), ('A1', 6, 8)] if tier == 'quick' else [('A', 4, 8), ('A', 5, 64), ('A1', 6, 8), ('A1', 7, 16)]
+    plan = [('A', 3, 1), ('A', 4, 8), ('A1', 5, 2), ('A1', 6, 8)] if tier == 'quick' else [('A', 4, 8), ('A', 5, 64), ('A1', 6, 8), ('A1', 7, 16), ('A1', 8, 64), ('A12', 6, 128)]
     for prof, n, K in plan:
         for k in range(K):
             u.append(('sub', prof, n, k, K))
